@@ -22,7 +22,7 @@ import gen
 import learners as L
 from common import rng
 
-TIMEOUT = 30
+TIMEOUT = 120        # a conversion polls once a second per batch: up to ~14 s idle; a hang is seen at 120 s just as well
 WORKERS = 14
 
 
